@@ -485,6 +485,13 @@ def run_cfg_rest(ctx, p, cfg):
                 te = deep_strip(trips) if trips is not None else None
                 okn = te is not None and te[0] == "field" and te[2] == "to_fill" and deep_strip(te[1]) == ("param", 1)
                 r.require(okn, "%s:pads-to_fill-times" % adt.rsplit("::", 1)[-1], fn=g, detail="the padding loop runs self.to_fill times (trip count %s)" % (show(te, 4) if te else None))
+                # .. on every path: no non-error return of finish() that has not been through the padding loop (text that is
+                # empty still owes its minimum width)
+                steps_ = {n_.block for n_ in g.calls("core::iter::traits::iterator::Iterator::next") if g.in_loop(n_.block) and g.can_reach(n_.block, wf[0].block) and g.can_reach(wf[0].block, n_.block)}
+                rets_ = {b_ for b_, e_ in q.ret_assignments(g) if q.classify_ret(e_) != "err" and not q.is_from_residual(e_)}
+                sk_ = q.skipping_paths(g, 0, steps_, rets_) if steps_ else rets_
+                r.require(not sk_, "%s:pads-on-every-path" % adt.rsplit("::", 1)[-1], fn=g, detail="every non-error return of finish() has passed the padding loop",
+                          fail_detail="finish() can return Ok (bb%s) without running the padding loop: output shorter than the minimum width is left unpadded" % sorted(sk_))
             if adt == RIGHT:
                 rep = [c for c in g.calls() if c.callee in ("std::io::Write::write_all", "encode::Write::set_style")]
                 r.require(len(rep) >= 1 and wf and all(not g.can_reach(c.block, wf[0].block) and g.can_reach(wf[0].block, c.block) for c in rep), "RightAlignWriter:pad-before-content", fn=g,
